@@ -213,7 +213,7 @@ _EXTRA2 = {
     "C05": " SelectionProblem._evaluate (what the optimisers see) is proved on bounded shapes to label the three parts of evalfn F / G / H and to leave out exactly the empty ones, for vector and matrix input.",
     "C20": " __init__ is under a straight-line unit: every operator and each of the five start containers is stored under its own name (the object passed or a copy with the same content), t_cur starts at 0.",
     "C04": " rrBLUPModel0.fit is executed on stand-ins: fit_numpy gets the unscaled phenotypes and the {0,1,2} dosages (the coding every prediction routine uses) of the objects passed, raw arrays untouched. The numpy-level var_a_numpy / bulmer_numpy are also proved for an explicit tetraploid ploidy. TrueBreedingValue.estimate is executed against a model stand-in that answers gebv and gegv differently: exactly one call, gebv, on the genotypes passed in, result returned as is.",
-    "C08": " A second frame obligation per function: no call to a third-party helper that owns a generator seeded from the operating system (pymoo helpers decorated @default_random_state, called without random_state=) and no unseeded default_rng()/RandomState(); the operator module's tiling helper is checked natively to be a function of prng.seed.",
+    "C08": " A seeded expected-maximum-breeding-value simulation is checked natively not to depend on the content of uninitialised buffers. A second frame obligation per function: no call to a third-party helper that owns a generator seeded from the operating system (pymoo helpers decorated @default_random_state, called without random_state=) and no unseeded default_rng()/RandomState(); the operator module's tiling helper is checked natively to be a function of prng.seed.",
     "C09": " The phased unit also runs haploid and triploid matrices (one and three chromosome copies). Every statistic is proved again after new allele calls were written in place through the array that .mat hands out (no statistic may be served from a stale cache).",
     "C11": " The physical-position wrappers gdist1p / gdist2p (both map classes, with and without index windows) and rprob1g/2g/1p/2p (both map functions) are "
            "executed on recording stand-ins: positions are interpolated for ALL markers, the genetic-position routine gets those and the caller's window, its result is returned (through mapfn for rprob*). gdist2g is proved (<=5 markers on 1-3 chromosomes, positions symbolic) to return for every pair of row / column windows, square or rectangular, on or off the diagonal, the corresponding block of |g_i - g_j| / +inf.",
